@@ -61,6 +61,49 @@ DecodeFrom(fmt, i, b, p) ==
                     IF rest.ok THEN [ok |-> TRUE, vals |-> <<r.els>> \o rest.vals, p |-> rest.p] ELSE rest
 Decode(fmt, b) == LET r == DecodeFrom(fmt, 1, b, 1) IN IF r.ok THEN [ok |-> TRUE, vals |-> r.vals, used |-> r.p - 1] ELSE [ok |-> FALSE]
 
+\* ------------------------------------------------------------------------
+\* Text containers.  LibraryPath : u16 length, UTF-8 text (assembly/src/library/path.rs, doc comments of `new` / `validate`):
+\*   the path is not empty and takes at most 1023 bytes; its components are separated by "::"; the first component may be
+\*   one of the special names "#sys" / "#exec" (which is then the whole path or is followed by the delimiter); every other
+\*   component is non-empty, at most 255 bytes, starts with an ASCII letter and consists of ASCII letters, digits and '_'.
+\* Text is judged over the alphabet the generator uses: ASCII bytes, the two-byte character C3 A9 and the byte FF
+\* (never valid in UTF-8).
+IsAlpha(c) == (c >= 65 /\ c <= 90) \/ (c >= 97 /\ c <= 122)
+IsLabelChar(c) == IsAlpha(c) \/ (c >= 48 /\ c <= 57) \/ c = 95
+RECURSIVE Utf8Chars(_)          \* <<TRUE, code points>> or <<FALSE>>
+Utf8Chars(b) ==
+  IF b = <<>> THEN <<TRUE, <<>>>>
+  ELSE IF b[1] < 128 THEN LET r == Utf8Chars(Tail(b)) IN IF r[1] THEN <<TRUE, <<b[1]>> \o r[2]>> ELSE r
+  ELSE IF b[1] = 195 /\ Len(b) >= 2 /\ b[2] >= 128 /\ b[2] < 192
+       THEN LET r == Utf8Chars(SubSeq(b, 3, Len(b))) IN IF r[1] THEN <<TRUE, <<64 * 3 + (b[2] - 128)>> \o r[2]>> ELSE r
+  ELSE <<FALSE>>
+RECURSIVE SplitDelim(_, _)      \* components between "::" delimiters, matched left to right
+SplitDelim(cs, cur) ==
+  IF cs = <<>> THEN <<cur>>
+  ELSE IF Len(cs) >= 2 /\ cs[1] = 58 /\ cs[2] = 58 THEN <<cur>> \o SplitDelim(SubSeq(cs, 3, Len(cs)), <<>>)
+  ELSE SplitDelim(Tail(cs), Append(cur, cs[1]))
+ValidComponent(c) == c # <<>> /\ Len(c) <= 255 /\ IsAlpha(c[1]) /\ \A i \in 1 .. Len(c) : IsLabelChar(c[i])
+SysName == <<35, 115, 121, 115>>
+ExecName == <<35, 101, 120, 101, 99>>
+SpecialLen(cs) ==
+  LET is(p) == Len(cs) >= Len(p) /\ SubSeq(cs, 1, Len(p)) = p
+                /\ (Len(cs) = Len(p) \/ (Len(cs) >= Len(p) + 2 /\ cs[Len(p) + 1] = 58 /\ cs[Len(p) + 2] = 58))
+  IN IF is(SysName) THEN 4 ELSE IF is(ExecName) THEN 5 ELSE 0
+\* cs : code points, nbytes : length of the encoded text
+ValidPath(cs, nbytes) ==
+  /\ cs # <<>> /\ nbytes <= 1023
+  /\ LET sp == SpecialLen(cs) IN
+     IF sp > 0 /\ Len(cs) = sp THEN TRUE
+     ELSE LET rest == IF sp > 0 THEN SubSeq(cs, sp + 3, Len(cs)) ELSE cs
+              comps == SplitDelim(rest, <<>>)
+          IN \A i \in 1 .. Len(comps) : ValidComponent(comps[i])
+DecodePath(b) ==
+  IF Len(b) < 2 THEN [ok |-> FALSE]
+  ELSE LET n == b[1] + 256 * b[2] IN
+       IF Len(b) < 2 + n THEN [ok |-> FALSE]
+       ELSE LET u == Utf8Chars(SubSeq(b, 3, 2 + n)) IN
+            IF u[1] /\ ValidPath(u[2], n) THEN [ok |-> TRUE, used |-> 2 + n] ELSE [ok |-> FALSE]
+
 \* ---- properties of the model itself ----
 \* an accepted value re-encodes to the consumed prefix, which decodes to the same value
 ReEncode(fmt, b) == LET d == Decode(fmt, b) IN d.ok => (Encode(fmt, d.vals) = SubSeq(b, 1, d.used) /\ Decode(fmt, Encode(fmt, d.vals)).vals = d.vals)
